@@ -138,6 +138,9 @@ async def reader_case(ctx, stream: bytes, cuts: tuple[int, ...], eof: bool) -> N
     from aiomysensors.transport.tcp import TCPTransport
 
     transport = TCPTransport("127.0.0.1", 1)
+    if not hasattr(transport, "reader"):
+        ctx.skip("streamreader-seam", "StreamTransport has no public `reader` attribute; loopback TCP / pty workloads decide")
+        return
     reader = asyncio.StreamReader(limit=LIMIT)
     transport.reader = reader
     chunks = [stream[a:b] for a, b in zip((0, *cuts), (*cuts, len(stream)))]
